@@ -56,6 +56,11 @@ func (p *Parser) ParseTokens(tokens []*Token) (*Node, error) {
 						Token:  token,
 						Parent: node,
 					})
+				} else if node.Parent == nil { // 多余的闭合标签 没有对应的开始标签 原样保留
+					node.Children = append(node.Children, &Node{
+						Token:  token,
+						Parent: node,
+					})
 				} else { // 是闭合标签 但不是自闭合标签 </div>
 					node.End = token   // node 结束
 					node = node.Parent // 将 node 指向父节点
